@@ -104,6 +104,46 @@ def protocol_section():
     return s
 
 
+def returned_forms(fn):
+    """The sorted distinct expressions a function returns, with every local that is assigned exactly once (a plain
+    `name = expr`, not a parameter, not a loop / with / except target) replaced by its defining expression: the obligation on
+    what is returned does not depend on how many temporaries the code uses."""
+    params = {a.arg for a in fn.args.args + fn.args.kwonlyargs + fn.args.posonlyargs}
+    if fn.args.vararg:
+        params.add(fn.args.vararg.arg)
+    if fn.args.kwarg:
+        params.add(fn.args.kwarg.arg)
+    stores = {}
+    for n in ast.walk(fn):
+        if isinstance(n, ast.Name) and isinstance(n.ctx, (ast.Store, ast.Del)):
+            stores[n.id] = stores.get(n.id, 0) + 1
+        if isinstance(n, ast.ExceptHandler) and n.name:
+            stores[n.name] = stores.get(n.name, 0) + 2
+    defs = {}
+    for n in ast.walk(fn):
+        if (isinstance(n, ast.Assign) and len(n.targets) == 1 and isinstance(n.targets[0], ast.Name)
+                and stores.get(n.targets[0].id) == 1 and n.targets[0].id not in params):
+            defs[n.targets[0].id] = n.value
+
+    class Sub(ast.NodeTransformer):
+        depth = 0
+
+        def visit_Name(self, node):
+            if isinstance(node.ctx, ast.Load) and node.id in defs and self.depth < 20:
+                self.depth += 1
+                try:
+                    return self.visit(ast.parse(ast.unparse(defs[node.id]), mode="eval").body)
+                finally:
+                    self.depth -= 1
+            return node
+    out = set()
+    for n in ast.walk(fn):
+        if isinstance(n, ast.Return) and n.value is not None:
+            e = Sub().visit(ast.parse(ast.unparse(n.value), mode="eval").body)
+            out.add(ast.unparse(e))
+    return sorted(out)
+
+
 def entry_section():
     """C09/C06 entry functions: structural obligations on pvl/__init__.py."""
     s = Section("entry-points", "frame", rule="loads/dump/dumps wiring in pvl/__init__.py (and pvl/new.py)")
@@ -114,30 +154,19 @@ def entry_section():
             s.obl(f"{mod}.{name}", DISCHARGED if ok else FAILED, "frame", detail=str(detail), function=f"{mod}.{name.split(':')[0]}")
 
         fn = prog.functions.get(f"{mod}.loads")
-        rets = [ast.unparse(n.value) for n in ast.walk(fn) if isinstance(n, ast.Return)]
+        rets = returned_forms(fn)
         ob("loads:returns-parser.parse(s)-only", rets == ["parser.parse(s)"], rets)
         calls = [ast.unparse(c.func) for c in ast.walk(fn) if isinstance(c, ast.Call)]
         ob("loads:default-parser-is-OmniParser", "OmniParser" in calls, calls)
         fn = prog.functions.get(f"{mod}.dump")
-        # every return of dump() is the count reported by one write of exactly dumps(module, **kwargs) (directly, or through a
-        # name assigned once from it), as text or as its UTF-8 encoding
-        single = {}
-        for n in ast.walk(fn):
-            if isinstance(n, ast.Assign) and len(n.targets) == 1 and isinstance(n.targets[0], ast.Name):
-                single.setdefault(n.targets[0].id, []).append(ast.unparse(n.value))
-
-        def norm(e):
-            t = ast.unparse(e)
-            for nm, vals in single.items():
-                if len(vals) == 1 and vals[0] == "dumps(module, **kwargs)":
-                    t = t.replace(f"({nm})", "(dumps(module, **kwargs))").replace(f"({nm}.encode())", "(dumps(module, **kwargs).encode())")
-            return t
-        rets = sorted({norm(n.value) for n in ast.walk(fn) if isinstance(n, ast.Return)})
-        allowed_rets = {"p.write_text(dumps(module, **kwargs))", "path.write(dumps(module, **kwargs))",
+        # every return of dump() is the count reported by one write of exactly dumps(module, **kwargs) (directly, or through
+        # names assigned once), as text or as its UTF-8 encoding
+        rets = returned_forms(fn)
+        allowed_rets = {"Path(path).write_text(dumps(module, **kwargs))", "path.write(dumps(module, **kwargs))",
                         "path.write(dumps(module, **kwargs).encode())"}
         ob("dump:writes-exactly-dumps()-and-returns-the-callee-count", bool(rets) and set(rets) <= allowed_rets
-           and "p.write_text(dumps(module, **kwargs))" in rets, rets)
+           and "Path(path).write_text(dumps(module, **kwargs))" in rets, rets)
         fn = prog.functions.get(f"{mod}.dumps")
-        rets = [ast.unparse(n.value) for n in ast.walk(fn) if isinstance(n, ast.Return)]
+        rets = returned_forms(fn)
         ob("dumps:returns-encoder.encode(module)-only", rets == ["encoder.encode(module)"], rets)
     return s
